@@ -188,6 +188,10 @@ class Canon(ast.NodeTransformer):
             except Unfoldable:
                 pass
         node.value = self.visit(node.value)
+        # field of a NamedTuple that was written out as the tuple of its fields
+        nt = getattr(node.value, "_nt_fields", None)
+        if nt is not None and isinstance(node.value, ast.Tuple) and node.attr in nt:
+            return node.value.elts[nt.index(node.attr)]
         # projection of a constructor call onto a stored parameter
         if isinstance(node.value, ast.Call):
             c = self._repo_class(node.value.func, getattr(node.value, "_mod", None))
@@ -233,7 +237,10 @@ class Canon(ast.NodeTransformer):
                             if d_ is not None:
                                 vals[fl] = d_
                     if all(fl in vals for fl in flds) and set(vals) == set(flds):
-                        return self.visit(ast.copy_location(ast.Tuple(elts=[copy.deepcopy(vals[fl]) for fl in flds], ctx=ast.Load()), node))
+                        tup = ast.copy_location(ast.Tuple(elts=[copy.deepcopy(vals[fl]) for fl in flds], ctx=ast.Load()), node)
+                        tup = self.visit(tup)
+                        tup._nt_fields = tuple(flds)  # type: ignore[attr-defined]  field names, for `.name` projection
+                        return tup
         h = self._getter(node)
         if h is not None and self.depth < 8:
             f, ret = h
